@@ -377,17 +377,17 @@ HELPERS = ["fft_helper_inplace_well", "fft_helper_inplace_ill", "fft_helper_outo
 QUICK_E2 = {
     "C15": hq(BFS, ["imm_well_k1"]) + hq(["bf2", "bf4", "bf8", "dft2"], ["imm_well_k2"]) + hq(WRAP, ["imm_well_k1"]),
     "C03": hq(["bf2", "bf3", "bf4", "bf5", "bf6", "bf7", "bf8", "dft2", "dft3", "r4_4", "r4_8", "r3_3"], ["oop_well_k1"])
-           + hq(["bf2", "bf3", "bf4", "bf5", "dft2", "r4_4", "r3_3"], ["ps_ill", "oop_ill", "imm_ill"])
-           + hq(["mr_2x3", "mrs_2x3", "r4b_1_1", "rn_3_b2"], ["ps_well_k1", "oop_well_k1"]) + hh(*CONTRACTS),
-    "C09": hh(*HELPERS) + hh(*CONTRACTS) + hq(["bf1"], ["oop_ill", "imm_ill", "ps_well_k1"]) + hq(["bf2", "bf3", "bf4", "dft2", "r4_4", "r3_3"], ["ps_ill", "oop_ill", "imm_ill", "ps_well_k1"])
-           + hq(["mr_2x2", "rn_2_b1"], ["ps_ill", "ps_well_k1"]),
+           + hq(["bf2", "bf3", "bf4", "bf5", "bf6"], ["ps_ill", "oop_ill", "imm_ill"]) + hq(["dft2", "r4_4", "r3_3"], ["ps_ill"])
+           + hq(["mr_2x3", "mrs_2x3", "r4b_1_1"], ["ps_well_k1", "oop_well_k1"]) + hh(*CONTRACTS),
+    "C09": hh(*HELPERS) + hh(*CONTRACTS) + hq(["bf1"], ["oop_ill", "imm_ill", "ps_well_k1"]) + hq(["bf2", "bf3", "bf4", "bf5"], ["ps_ill", "oop_ill", "imm_ill", "ps_well_k1"]) + hq(["dft2", "r4_4", "r3_3"], ["ps_ill", "ps_well_k1"])
+           + hq(["mr_2x2", "rn_2_b1"], ["ps_well_k1"]),
     "C07": hq(["bf2", "bf3", "bf4"], ["ps_well_k2", "oop_well_k2", "imm_well_k2", "ps_well_k3", "oop_well_k3", "imm_well_k3"])
            + hq(["bf8", "dft2", "r4_4", "r3_3"], ["ps_well_k2", "oop_well_k2"]) + hq(["mr_2x2", "mrs_2x3"], ["ps_well_k2"])
            + hh("validate_and_iter_unroll2x_contract", "validate_and_zip_unroll2x_contract", "validate_and_zip_mut_unroll2x_contract", "validate_and_iter_contract"),
     "C08": hq(["mr_2x3", "mr_2x2", "mrs_2x3", "gts_2x3", "r4b_1_1", "r3b_1_1", "rn_3_b2", "rn_23_b1", "rader3", "blue1_1"], ["ps_well_k1", "oop_well_k1", "imm_well_k1"])
            + hh("validate_and_iter_contract", "validate_and_zip_contract", "validate_and_zip_mut_contract"),
     "C12": hq(["mr_2x3", "mrs_2x2", "gts_3x2", "rader3", "blue1_1", "r4b_1_2", "r3b_1_2", "rn_2_b1", "rn_5_b1", "gt_1x2"], ["ps_well_k1"])
-           + hq(["mr_2x3", "mrs_2x2", "rader3", "r4b_1_1", "rn_2_b1"], ["ps_ill"]),
+           + hq(["mr_2x3", "mrs_2x2", "rader3", "r4b_1_1"], ["oop_well_k1", "imm_well_k1"]),
 }
 
 
@@ -519,6 +519,8 @@ def c12_trees(tier, seed):
                     d1.append((f"MRS({ea},{eb})", a * b))
                     if _gcd(a, b) == 1:
                         d1.append((f"GTS({ea},{eb})", a * b))
+    # p = 2 included: RadersAlgorithm::new(inner of length 1) used to panic (primitive_root(2)), fixed in /repo
+    must = [("RA(B1)", 2), ("RA(D1)", 2), ("RA(S1_0_0_0)", 2), ("RA(S1_3_2_1)", 2)]
     for p in [3, 5, 7, 11, 13, 17, 19, 23, 29, 31, 37, 41, 43, 53, 61, 73, 97, 101, 113, 127]:
         if p <= L:
             for (e, _) in pick(_leaf_variants(p - 1, rng), per + 1):
@@ -595,6 +597,7 @@ def c12_trees(tier, seed):
     for key in sorted(fam):
         v = fam[key]
         d1 += v if len(v) <= per_family else rng.sample(v, per_family)
+    d1 += must
     specs = []
     for j, (e, n) in enumerate(d1 + d2):
         d = "fwd" if j % 2 == 0 else "inv"
